@@ -10,6 +10,7 @@ statistics, allocation and counter figures are those of the very samples that su
 the time, nothing panics and no float is NaN, including for zero samples."""
 from lib import rsx
 from lib.unit import *
+from lib.vrun import Section
 
 UTIL = "src/util/mod.rs"
 FD = "src/time/fine_duration.rs"
@@ -24,6 +25,25 @@ pub fn canary_iter_count(s: &SampleCollection) requires s.time_samples@.len() <=
 pub fn canary_clear(s: &mut SampleCollection) { s.clear(); assert(false); }
 """
 
+
+MIDDLE_CLAUSES = """
+        ensures
+            slice@.len() == 0 ==> r@.len() == 0,
+            slice@.len() > 0 && slice@.len() % 2 == 0 ==> r@ =~= slice@.subrange(slice@.len() as int / 2 - 1, slice@.len() as int / 2 + 1),
+            slice@.len() % 2 == 1 ==> r@ =~= slice@.subrange(slice@.len() as int / 2, slice@.len() as int / 2 + 1),
+            // i.e. for a sorted slice these are exactly the median element(s)
+            r@.len() == (if slice@.len() == 0 { 0int } else if slice@.len() % 2 == 0 { 2int } else { 1int }),
+"""
+ITER_HINT = (r"self \. sample_size as u64 \* self \. time_samples \. len \( \) as u64", "before", """
+                proof {
+                    assert(self.sample_size as int * self.time_samples@.len() as int <= 0xffff_ffff * 0xffff_ffff) by (nonlinear_arith)
+                        requires 0 <= self.sample_size as int <= 0xffff_ffff, 0 <= self.time_samples@.len() as int <= 0xffff_ffff;
+                }
+            """, 1, "hint")
+ITER_CLAUSES = """
+            requires self.time_samples@.len() <= u32::MAX,
+            ensures r == self.sample_size as int * self.time_samples@.len(),
+"""
 
 def alloc_type_sections(S: Sources):
     a = S(ALLOC)
@@ -49,14 +69,7 @@ def verus_files(S: Sources):
     secs.append(code_item(sm, sm.find_item("struct", "TimeSample")))
     secs.append(code_item(sm, sm.find_item("struct", "SampleCollection"), keep_attrs=(),))
     f_mid = u.find_fn("slice_middle")
-    secs.append(code_fn(u, f_mid, "util::slice_middle", ret="r", pair=["verif_c05_util::slice_middle_small"], clauses="""
-        ensures
-            slice@.len() == 0 ==> r@.len() == 0,
-            slice@.len() > 0 && slice@.len() % 2 == 0 ==> r@ =~= slice@.subrange(slice@.len() as int / 2 - 1, slice@.len() as int / 2 + 1),
-            slice@.len() % 2 == 1 ==> r@ =~= slice@.subrange(slice@.len() as int / 2, slice@.len() as int / 2 + 1),
-            // i.e. for a sorted slice these are exactly the median element(s)
-            r@.len() == (if slice@.len() == 0 { 0int } else if slice@.len() % 2 == 0 { 2int } else { 1int }),
-    """))
+    secs.append(code_fn(u, f_mid, "util::slice_middle", ret="r", pair=["verif_c05_util::slice_middle_small"], clauses=MIDDLE_CLAUSES))
     f_zero = fd.find_fn("is_zero", impl=r"impl FineDuration\b")
     f_clamp = fd.find_fn("clamp_to", impl=r"impl FineDuration\b")
     secs += wrap_impl("impl FineDuration", [
@@ -73,19 +86,10 @@ def verus_files(S: Sources):
                 final(self).alloc_info_by_sample@ == Map::<u32, ThreadAllocInfo>::empty(),
                 final(self).sample_size == old(self).sample_size,
         """),
-        code_fn(sm, f_iter, "SampleCollection::iter_count", ret="r", inserts=[
-            (r"self \. sample_size as u64 \* self \. time_samples \. len \( \) as u64", "before", """
-                proof {
-                    assert(self.sample_size as int * self.time_samples@.len() as int <= 0xffff_ffff * 0xffff_ffff) by (nonlinear_arith)
-                        requires 0 <= self.sample_size as int <= 0xffff_ffff, 0 <= self.time_samples@.len() as int <= 0xffff_ffff;
-                }
-            """, 1, "hint")], clauses="""
-            requires self.time_samples@.len() <= u32::MAX,
-            ensures r == self.sample_size as int * self.time_samples@.len(),
-        """),
+        code_fn(sm, f_iter, "SampleCollection::iter_count", ret="r", inserts=[ITER_HINT], clauses=ITER_CLAUSES),
     ])
     canary = list(secs) + [ghost("canaries", CANARIES, kind="lemma")]
-    return [VerusFile("c05_helpers", secs), VerusFile("c05_canary", canary, expect_fail=True)]
+    return [VerusFile("c05_helpers", secs), VerusFile("c05_canary", canary, expect_fail=True)] + time_core_files(S)
 
 
 def clear_file(S: Sources, prefix: str):
@@ -107,6 +111,350 @@ def clear_file(S: Sources, prefix: str):
         """)])
     canary = list(secs) + [ghost("canaries", "pub fn canary_clear(s: &mut SampleCollection) { s.clear(); assert(false); }", kind="lemma")]
     return [VerusFile(f"{prefix}_clear", secs), VerusFile(f"{prefix}_clear_canary", canary, expect_fail=True)]
+
+
+# --------------------------------------------------------------------------- compute_stats, time statistics (Verus)
+STATS = "src/stats/mod.rs"
+
+TIME_SPEC = r"""
+// ---- `impl<I: Into<u128>> Div<I> for FineDuration`: what `count.into()` yields is named by an uninterpreted
+// function; the two axioms say that it is what Into::into returns and that for u32 it is the value itself.
+pub uninterp spec fn into_u128<I>(i: I) -> u128;
+pub axiom fn axiom_into_u128<I: Into<u128>>(i: I, r: u128)
+    requires call_ensures(<I as Into<u128>>::into, (i,), r),
+    ensures r == into_u128(i);
+pub axiom fn axiom_into_u128_u32(i: u32)
+    ensures into_u128(i) == i as u128;
+impl<I: Into<u128>> vstd::std_specs::ops::DivSpecImpl<I> for FineDuration {
+    open spec fn obeys_div_spec() -> bool { true }
+    open spec fn div_req(self, rhs: I) -> bool { into_u128(rhs) != 0 }
+    open spec fn div_spec(self, rhs: I) -> Self { FineDuration { picos: self.picos / into_u128(rhs) } }
+}
+pub assume_specification[ <FineDuration as core::default::Default>::default ]() -> (r: FineDuration)
+    ensures r.picos == 0;
+
+// ---- the statement of C05 for the time columns
+pub open spec fn durs(s: Seq<TimeSample>) -> Seq<int> { s.map_values(|t: TimeSample| t.duration.picos as int) }
+pub open spec fn rdurs(s: Seq<&TimeSample>) -> Seq<int> { s.map_values(|t: &TimeSample| t.duration.picos as int) }
+pub open spec fn sum_seq(s: Seq<int>) -> int decreases s.len() { if s.len() == 0 { 0 } else { sum_seq(s.drop_last()) + s.last() } }
+pub open spec fn sorted(s: Seq<int>) -> bool { forall |i: int, j: int| 0 <= i <= j < s.len() ==> s[i] <= s[j] }
+// the middle sample, or the mean of the two middle ones
+pub open spec fn median_of(p: Seq<int>) -> int {
+    if p.len() % 2 == 1 { p[p.len() as int / 2] } else { (p[p.len() as int / 2 - 1] + p[p.len() as int / 2]) / 2 }
+}
+// the head of the Stats value (the fields up to and including `time`)
+pub struct StatsHead { pub sample_count: u32, pub iter_count: u64, pub time: StatsSet<FineDuration> }
+pub open spec fn c05_time(ts: Seq<TimeSample>, size: u32, p: Seq<int>, st: StatsHead) -> bool {
+    let n = ts.len() as int; let s = size as int;
+    // p is THE ascending arrangement of the recorded durations
+    &&& p.len() == n && sorted(p) && p.to_multiset() == durs(ts).to_multiset()
+    &&& st.sample_count == n
+    &&& st.iter_count == n * s
+    &&& n == 0 ==> st.time.fastest.picos == 0 && st.time.slowest.picos == 0 && st.time.median.picos == 0 && st.time.mean.picos == 0
+    &&& n > 0 ==> {
+        &&& st.time.fastest.picos == p[0] / s
+        &&& st.time.slowest.picos == p[n - 1] / s
+        &&& st.time.median.picos == median_of(p) / s
+        &&& st.time.mean.picos == sum_seq(durs(ts)) / (n * s)
+        // hence
+        &&& st.time.fastest.picos <= st.time.median.picos <= st.time.slowest.picos
+        &&& st.time.fastest.picos <= st.time.mean.picos <= st.time.slowest.picos
+    }
+}
+"""
+
+TIME_STANDINS = r"""
+// ---- stand-ins with ASSUMED contracts for the iterator expressions `X.iter().map(|s| s.duration.picos).sum()`
+// (pinned by their exact text; std's Iterator::sum on u128 wraps or panics on overflow, hence the precondition)
+#[verifier::external_body]
+pub fn sum_picos_refs(s: &[&TimeSample]) -> (r: u128)
+    requires sum_seq(rdurs(s@)) <= u128::MAX
+    ensures r == sum_seq(rdurs(s@))
+{ unimplemented!() }
+#[verifier::external_body]
+pub fn sum_picos(s: &Vec<TimeSample>) -> (r: u128)
+    requires sum_seq(durs(s@)) <= u128::MAX
+    ensures r == sum_seq(durs(s@))
+{ unimplemented!() }
+"""
+
+TIME_LEMMAS = r"""
+pub proof fn lemma_core(ts: Seq<TimeSample>, ss: Seq<&TimeSample>, ms: Seq<&TimeSample>)
+    requires ss.len() == ts.len(), rdurs(ss).to_multiset() == durs(ts).to_multiset(),
+        forall |i: int| 0 <= i < ts.len() ==> (#[trigger] ts[i]).duration.picos <= u128::MAX / 2,
+        ss.len() > 0 && ss.len() % 2 == 0 ==> ms =~= ss.subrange(ss.len() as int / 2 - 1, ss.len() as int / 2 + 1),
+        ss.len() % 2 == 1 ==> ms =~= ss.subrange(ss.len() as int / 2, ss.len() as int / 2 + 1),
+        ss.len() == 0 ==> ms.len() == 0,
+    ensures
+        forall |k: int| 0 <= k < ss.len() ==> 0 <= (#[trigger] ss[k]).duration.picos <= u128::MAX / 2,
+        ms.len() == 1 ==> sum_seq(rdurs(ms)) == ms[0].duration.picos,
+        ms.len() == 2 ==> sum_seq(rdurs(ms)) == ms[0].duration.picos + ms[1].duration.picos,
+        sum_seq(rdurs(ms)) <= u128::MAX,
+{
+    let p = rdurs(ss); let d = durs(ts);
+    p.to_multiset_ensures(); d.to_multiset_ensures();
+    assert forall |k: int| 0 <= k < ss.len() implies 0 <= (#[trigger] ss[k]).duration.picos <= u128::MAX / 2 by {
+        assert(p[k] == ss[k].duration.picos);
+        assert(p.contains(p[k]));
+        assert(p.to_multiset().count(p[k]) > 0);
+        assert(d.to_multiset().count(p[k]) > 0);
+        assert(d.contains(p[k]));
+        let i = choose |i: int| 0 <= i < d.len() && d[i] == p[k];
+        assert(d[i] == ts[i].duration.picos);
+    }
+    let m = rdurs(ms);
+    if ms.len() == 1 {
+        assert(m.drop_last() =~= Seq::<int>::empty());
+        assert(sum_seq(m) == sum_seq(m.drop_last()) + m.last());
+    }
+    if ms.len() == 2 {
+        assert(m.drop_last().drop_last() =~= Seq::<int>::empty());
+        assert(sum_seq(m.drop_last()) == sum_seq(m.drop_last().drop_last()) + m.drop_last().last());
+        assert(sum_seq(m) == sum_seq(m.drop_last()) + m.last());
+    }
+}
+pub proof fn lemma_sum_bounds(d: Seq<int>, lo: int, hi: int)
+    requires forall |i: int| 0 <= i < d.len() ==> lo <= #[trigger] d[i] && d[i] <= hi,
+    ensures d.len() * lo <= sum_seq(d) <= d.len() * hi,
+    decreases d.len(),
+{
+    if d.len() == 0 { } else {
+        lemma_sum_bounds(d.drop_last(), lo, hi);
+        assert(d.len() * lo == (d.len() - 1) * lo + lo) by (nonlinear_arith);
+        assert(d.len() * hi == (d.len() - 1) * hi + hi) by (nonlinear_arith);
+    }
+}
+pub proof fn lemma_scaled_div(x: int, n: int, s: int)
+    requires n > 0, s > 0, x >= 0,
+    ensures (n * x) / (n * s) == x / s,
+{
+    vstd::arithmetic::div_mod::lemma_div_denominator(n * x, n, s);
+    vstd::arithmetic::div_mod::lemma_div_multiples_vanish(x, n);
+    assert(n * x == x * n) by (nonlinear_arith);
+}
+// fastest <= median <= slowest and fastest <= mean <= slowest follow from the exact formulas
+pub proof fn lemma_stats_order(d: Seq<int>, p: Seq<int>, s: int)
+    requires p.len() == d.len(), d.len() > 0, sorted(p), p.to_multiset() == d.to_multiset(), s > 0,
+        forall |i: int| 0 <= i < d.len() ==> #[trigger] d[i] >= 0,
+    ensures
+        p[0] / s <= median_of(p) / s <= p[p.len() - 1] / s,
+        p[0] / s <= sum_seq(d) / (d.len() * s) <= p[p.len() - 1] / s,
+{
+    let n = d.len() as int;
+    p.to_multiset_ensures(); d.to_multiset_ensures();
+    assert forall |i: int| 0 <= i < d.len() implies p[0] <= #[trigger] d[i] && d[i] <= p[n - 1] by {
+        assert(d.contains(d[i]));
+        assert(d.to_multiset().count(d[i]) > 0);
+        assert(p.to_multiset().count(d[i]) > 0);
+        assert(p.contains(d[i]));
+        let k = choose |k: int| 0 <= k < p.len() && p[k] == d[i];
+        assert(p[0] <= p[k] <= p[n - 1]);
+    }
+    assert(p[0] >= 0) by {
+        assert(p.contains(p[0]));
+        assert(p.to_multiset().count(p[0]) > 0);
+        assert(d.to_multiset().count(p[0]) > 0);
+        assert(d.contains(p[0]));
+    }
+    lemma_sum_bounds(d, p[0], p[n - 1]);
+    let m = median_of(p);
+    assert(p[0] <= m <= p[n - 1]) by {
+        if n % 2 == 1 { assert(p[0] <= p[n / 2] <= p[n - 1]); }
+        else { assert(p[0] <= p[n / 2 - 1] <= p[n / 2] <= p[n - 1]); }
+    }
+    vstd::arithmetic::div_mod::lemma_div_is_ordered(p[0], m, s);
+    vstd::arithmetic::div_mod::lemma_div_is_ordered(m, p[n - 1], s);
+    assert(n * s > 0) by (nonlinear_arith) requires n > 0, s > 0;
+    vstd::arithmetic::div_mod::lemma_div_is_ordered(n * p[0], sum_seq(d), n * s);
+    vstd::arithmetic::div_mod::lemma_div_is_ordered(sum_seq(d), n * p[n - 1], n * s);
+    lemma_scaled_div(p[0], n, s);
+    lemma_scaled_div(p[n - 1], n, s);
+}
+"""
+
+TIME_CLAUSES = r"""
+    requires
+        // environment: fewer than 2^32 samples (iter_count multiplies in u64), the total and twice any one duration fit u128
+        samples.time_samples@.len() <= u32::MAX,
+        sum_seq(durs(samples.time_samples@)) <= u128::MAX,
+        forall |i: int| 0 <= i < samples.time_samples@.len() ==> (#[trigger] samples.time_samples@[i]).duration.picos <= u128::MAX / 2,
+        // loop invariant of bench_loop_threaded: samples are only recorded with a non-zero sample size
+        samples.time_samples@.len() > 0 ==> samples.sample_size > 0,
+    ensures
+        c05_time(samples.time_samples@, samples.sample_size, r.1@, r.0),
+"""
+
+# proof hints (optional: if an anchor is lost the function is still verified, a failure is then undecided)
+TIME_HINT_MID = r"""
+proof { lemma_core(samples.time_samples@, sorted_samples@, median_samples@); axiom_into_u128_u32(sample_size); }
+"""
+TIME_HINT_END = r"""
+proof {
+    let n = samples.time_samples@.len() as int; let s = samples.sample_size as int; let p = rdurs(sorted_samples@);
+    assert(n * s == s * n) by (nonlinear_arith);
+    if n > 0 {
+        assert(p[0] == sorted_samples@[0].duration.picos);
+        assert(p[n - 1] == sorted_samples@[n - 1].duration.picos);
+        assert(n * s > 0) by (nonlinear_arith) requires n > 0, s > 0;
+        assert(into_u128(sample_size) == s);
+        if n % 2 == 1 {
+            assert(median_samples@[0] == sorted_samples@[n / 2]);
+            assert(p[n / 2] == sorted_samples@[n / 2].duration.picos);
+            assert(median_samples@.len() == 1);
+            assert(sum_seq(rdurs(median_samples@)) == median_samples@[0].duration.picos);
+            assert(median_duration.picos == (sum_seq(rdurs(median_samples@)) as u128 / 1u128) / (s as u128));
+            assert(median_duration.picos == p[n / 2] / s);
+        } else {
+            assert(median_samples@[0] == sorted_samples@[n / 2 - 1]);
+            assert(median_samples@[1] == sorted_samples@[n / 2]);
+            assert(p[n / 2 - 1] == sorted_samples@[n / 2 - 1].duration.picos);
+            assert(p[n / 2] == sorted_samples@[n / 2].duration.picos);
+            assert(median_samples@.len() == 2);
+            assert(sum_seq(rdurs(median_samples@)) == median_samples@[0].duration.picos + median_samples@[1].duration.picos);
+            assert(median_duration.picos == (sum_seq(rdurs(median_samples@)) as u128 / 2u128) / (s as u128));
+            assert(median_duration.picos == ((p[n / 2 - 1] + p[n / 2]) / 2) / s);
+        }
+        assert forall |i: int| 0 <= i < durs(samples.time_samples@).len() implies #[trigger] durs(samples.time_samples@)[i] >= 0 by {}
+        lemma_stats_order(durs(samples.time_samples@), p, s);
+        assert(min_duration.picos == p[0] / s);
+        assert(max_duration.picos == p[n - 1] / s);
+        assert(mean_duration.picos == sum_seq(durs(samples.time_samples@)) / (n * s));
+        assert(median_duration.picos == median_of(p) / s);
+    } else {
+        assert(min_duration.picos == 0 && max_duration.picos == 0 && median_duration.picos == 0 && mean_duration.picos == 0);
+    }
+    assert(sample_count as u32 == n);
+    assert(total_count == n * s);
+}
+"""
+
+
+def _stmt_end(text: str, at: int, what: str) -> int:
+    """offset just past the `;` that ends the statement starting at `at` (bracket matching)"""
+    depth, i = 0, at
+    while i < len(text):
+        c = text[i]
+        if c in "({[": depth += 1
+        elif c in ")}]": depth -= 1
+        elif c == ";" and depth == 0: return i + 1
+        i += 1
+    raise rsx.LostAnchor(f"{BENCH}: compute_stats: end of statement `{what}` not found")
+
+
+def time_core_files(S: Sources):
+    """The time columns of BenchContext::compute_stats as one Verus function built from two regions of its text."""
+    import re
+    b = S(BENCH); fd = S(FD); sm = S(SAMPLE); st = S(STATS); u = S(UTIL)
+    secs = [ghost("imports", "use std::collections::HashMap;", kind="glue")]
+    secs += alloc_type_sections(S)
+    secs.append(code_item(fd, fd.find_item("struct", "FineDuration"), keep_attrs=("derive",),
+                          subst=[(r"#\[derive\([^\]]*\)\]", "#[derive(Clone, Copy, Default, PartialEq, Eq, PartialOrd, Ord)]", 1)]))
+    secs.append(code_item(sm, sm.find_item("struct", "TimeSample")))
+    secs.append(code_item(sm, sm.find_item("struct", "SampleCollection"), keep_attrs=(),))
+    secs.append(code_item(st, st.find_item("struct", "StatsSet"), keep_attrs=()))
+    secs.append(ghost("C05 time spec", TIME_SPEC))
+    secs.append(ghost("stand-ins for the iterator sums (ASSUMED)", TIME_STANDINS, kind="trusted"))
+    secs.append(ghost("C05 time lemmas", TIME_LEMMAS, kind="lemma"))
+    # <FineDuration as Div<I>>::div
+    f_div = fd.find_fn("div", impl=r"impl<I: Into<u128>> ops::Div<I> for FineDuration")
+    secs += wrap_impl("impl<I: Into<u128>> std::ops::Div<I> for FineDuration", [
+        ghost("type Output", "type Output = Self;", kind="glue"),
+        code_fn(fd, f_div, "<FineDuration as Div<I>>::div", pair=["verif_c05_fd::div_u32"], inserts=[
+            (r"Self \{ picos : self \. picos / count \. into \( \) \}", "before",
+             "proof { assert forall |r: u128| call_ensures(<I as Into<u128>>::into, (count,), r) implies r == into_u128(count) by { axiom_into_u128(count, r); } }", 1, "hint")]),
+    ])
+    f_mid = u.find_fn("slice_middle")
+    secs.append(code_fn(u, f_mid, "util::slice_middle", ret="r", pair=["verif_c05_util::slice_middle_small"], clauses=MIDDLE_CLAUSES))
+    f_iter = sm.find_fn("iter_count", impl=r"impl SampleCollection\b")
+    f_total = sm.find_fn("total_duration", impl=r"impl SampleCollection\b")
+    f_sorted = sm.find_fn("sorted_samples", impl=r"impl SampleCollection\b")
+    SUM_RE = r"(&?\s*[\w.]+?)\s*\.\s*iter\s*\(\s*\)\s*\.\s*map\s*\(\s*\|\s*s\s*\|\s*s\s*\.\s*duration\s*\.\s*picos\s*\)\s*\.\s*sum\s*\(\s*\)"
+    secs += wrap_impl("impl SampleCollection", [
+        code_fn(sm, f_iter, "SampleCollection::iter_count", ret="r", inserts=[ITER_HINT], clauses=ITER_CLAUSES),
+        code_fn(sm, f_total, "SampleCollection::total_duration", ret="r", subst=[(SUM_RE, r"sum_picos(&\1)", 1)], clauses="""
+            requires sum_seq(durs(self.time_samples@)) <= u128::MAX,
+            ensures r.picos == sum_seq(durs(self.time_samples@)),
+        """),
+        # slice::sort_unstable_by_key and Iterator::collect are std: the body is not verified here
+        code_fn(sm, f_sorted, "SampleCollection::sorted_samples", ret="r", assume=True, clauses="""
+            ensures r@.len() == self.time_samples@.len(),
+                sorted(rdurs(r@)),
+                rdurs(r@).to_multiset() == durs(self.time_samples@).to_multiset(),
+        """),
+    ])
+    # ---- region 1: from the first statement of compute_stats to the end of `let median_duration = ...;`
+    f = b.find_fn("compute_stats", impl=r"impl<'a> BenchContext<'a>")
+    body = f.body_text()
+    r1, line = rsx.region(f, r"let time_samples = & self \. samples \. time_samples ;", r"let median_duration =", include_end=True)
+    a1 = body.index(r1)
+    e1 = _stmt_end(body, a1 + len(r1), "let median_duration")
+    r1 = body[a1:e1]
+    dropped = []
+    # the two closures used only by the counter / allocation columns
+    for name in ("index_of_sample", "counter_count_for_sample"):
+        m = re.search(r"let\s+" + name + r"\s*=\s*\|", r1)
+        if not m:
+            raise rsx.LostAnchor(f"{BENCH}: compute_stats: closure `{name}` not found in the time region")
+        e = _stmt_end(r1, m.start(), name)
+        r1 = r1[:m.start()] + r1[e:]
+        dropped.append(f"statement `let {name} = |..| ..;` (closure used by the counter / allocation columns only)")
+    subs = [
+        (r"self\s*\.\s*samples\b", "samples", "any"),
+        (r"util\s*::\s*slice_middle\s*\(\s*&\s*(\w+)\s*\)", r"slice_middle(\1.as_slice())", 1),
+        (SUM_RE, r"sum_picos_refs(\1)", "opt"),      # if the median is computed without this iterator sum, nothing is replaced
+        # closure headers get a contract; the closure's expression stays
+        (r"\.\s*map\s*\(\s*\|\s*(\w+)\s*\|\s*([^()|{}]*(?:\([^()]*\)[^()|{}]*)*)\)",
+         r".map(|\1: &&TimeSample| -> (o: FineDuration) requires sample_size > 0, ensures o.picos == \1.duration.picos / (sample_size as u128), { \2 })", 2),
+    ]
+    for pat, rep, cnt in subs:
+        r1, k = re.subn(pat, rep, r1)
+        if (cnt == "any" and k < 1) or (cnt == "opt" and k > 1) or (cnt not in ("any", "opt") and k != cnt):
+            raise rsx.LostAnchor(f"{BENCH}: compute_stats time region: subst {pat!r} matched {k} != {cnt}")
+        dropped.append(f"subst {pat!r} -> {rep!r} ({k}x)")
+    hints_missing = []
+    m = re.search(r"let\s+median_samples\s*=", r1)
+    if m:
+        e = _stmt_end(r1, m.start(), "let median_samples")
+        r1 = r1[:e] + "\n" + TIME_HINT_MID + r1[e:]
+    else:
+        hints_missing.append("compute_stats: proof hint after `let median_samples = ..;` could not be placed")
+    # ---- region 2: the head of the Stats literal, `Stats { sample_count: .., iter_count: .., time: StatsSet { .. },`
+    m2 = re.search(r"\bStats\s*\{\s*sample_count\s*:", body[e1:])
+    if not m2:
+        raise rsx.LostAnchor(f"{BENCH}: compute_stats: `Stats {{ sample_count: ..` not found after the time region")
+    a2 = e1 + m2.start()
+    m3 = re.search(r"\bmax_alloc\s*:", body[a2:])
+    if not m3:
+        raise rsx.LostAnchor(f"{BENCH}: compute_stats: field `max_alloc:` of the Stats literal not found")
+    head = body[a2:a2 + m3.start()]
+    if not re.search(r"\btime\s*:", head):
+        raise rsx.LostAnchor(f"{BENCH}: compute_stats: field `time:` does not precede `max_alloc:` in the Stats literal")
+    head = re.sub(r"^\s*Stats\s*\{", "StatsHead {", head, count=1) + "}"
+    dropped.append("region 2: the Stats literal up to (not including) `max_alloc:`, closed as the ghost struct StatsHead; everything between the two regions "
+                   "(allocation / counter columns) and after `time` is dropped")
+    # nothing the head names may be re-bound between the regions at the function's top level
+    mid = body[e1:a2]
+    used = set(re.findall(r"[A-Za-z_]\w*", head))
+    depth = 0
+    for mm in re.finditer(r"[(){}\[\]]|\blet\s+(?:mut\s+)?(\w+)", mid):
+        tok = mm.group(0)
+        if tok in "({[": depth += 1
+        elif tok in ")}]": depth -= 1
+        elif depth == 0 and mm.group(1) in used:
+            raise rsx.LostAnchor(f"{BENCH}: compute_stats: `{mm.group(1)}` is re-bound between the time region and the Stats literal")
+    txt = ("pub fn compute_stats_time(samples: &SampleCollection) -> (r: (StatsHead, Ghost<Seq<int>>))\n" + TIME_CLAUSES + "{\n" + r1 + "\n" +
+           TIME_HINT_END + "\nlet head = " + head + ";\n(head, Ghost(rdurs(sorted_samples@)))\n}")
+    core = Section(name="BenchContext::compute_stats (time columns, two regions)", kind="code", origin=f"{BENCH}:{line}", text=txt,
+                   pair=["verif_c05::time_n1_s1", "verif_c05::time_n1_s3", "verif_c05::time_n2_s3"])
+    core.dropped = dropped
+    core.missing_hints = hints_missing
+    secs.append(core)
+    canary = list(secs[:-1])
+    ctxt = txt.replace("\nlet head = ", "\nassert(false); // CANARY time_end\nlet head = ")
+    csec = Section(name=core.name + " [canary]", kind="lemma", origin="ghost", text=ctxt)
+    canary.append(csec)
+    canary.append(ghost("canaries", "pub fn canary_time(s: &SampleCollection) requires s.time_samples@.len() == 0 { let r = compute_stats_time(s); assert(false); }", kind="lemma"))
+    return [VerusFile("c05_time", secs), VerusFile("c05_time_canary", canary, expect_fail=True)]
 
 
 KANI_UTIL = r"""
@@ -150,6 +498,18 @@ mod verif_c05_fd {
         let m = a.clamp_to_min(b);
         assert!(m.picos == if a.picos == 0 { b.picos } else if b.picos == 0 { a.picos } else if a.picos < b.picos { a.picos } else { b.picos });
         kani::cover!(a.picos == 0 && b.picos != 0);
+    }
+    /// `d / n` for a u32 count is the picosecond value divided by the count (the assumed meaning of `count.into()`)
+    #[kani::proof]
+    fn div_u32() {
+        let n: u32 = kani::any(); kani::assume(n != 0);
+        let w: u128 = n.into();
+        assert!(w == n as u128);
+        // the division itself on small operands (a symbolic 128-bit divisor costs CBMC > 20 min)
+        let a = FineDuration { picos: kani::any::<u16>() as u128 };
+        let m: u32 = kani::any::<u8>() as u32; kani::assume(m != 0);
+        assert!((a / m).picos == a.picos / (m as u128));
+        kani::cover!(m == 7 && n == u32::MAX);
     }
 }
 """
@@ -309,6 +669,22 @@ mod verif_c05 {
         assert!(no_nan(&st));
         kani::cover!(rot == N - 1);
     }
+    /// SampleCollection::sorted_samples (ASSUMED contract of the Verus unit): as many references as samples, ascending,
+    /// each pointing at a distinct element of time_samples
+    #[kani::proof] #[kani::unwind(6)] #[kani::stub(std::hash::RandomState::new, zeroed_random_state)]
+    fn sorted_samples_n3() {
+        let mut sc = crate::stats::SampleCollection::default();
+        let d: [u128; 3] = kani::any();
+        for x in d { sc.time_samples.push(TimeSample { duration: FineDuration { picos: x } }); }
+        let s = sc.sorted_samples();
+        assert!(s.len() == 3);
+        assert!(s[0].duration <= s[1].duration && s[1].duration <= s[2].duration);
+        let idx = |r: &TimeSample| crate::util::slice_ptr_index(&sc.time_samples, r);
+        let (i, j, k) = (idx(s[0]), idx(s[1]), idx(s[2]));
+        assert!(i < 3 && j < 3 && k < 3 && i != j && j != k && i != k);
+        kani::cover!(d[2] < d[0] && d[0] < d[1]);
+    }
+
     macro_rules! attr_harness { ($name:ident, $n:expr, $s:expr, $c:expr) => {
         #[kani::proof] #[kani::unwind(8)] #[kani::solver(kissat)] #[kani::stub(std::hash::RandomState::new, zeroed_random_state)]
         fn $name() { attribution::<$n, $s, $c>(); }
@@ -329,6 +705,7 @@ mod verif_c05 {
     time_harness!(time_n0_s5, 0, 5);
     time_harness!(time_n1_s1, 1, 1);
     time_harness!(time_n1_s3, 1, 3);
+    time_harness!(time_n2_s1, 2, 1);
     time_harness!(time_n2_s3, 2, 3);
     time_harness!(time_n3_s1, 3, 1);
     time_harness!(time_n3_s3, 3, 3);
@@ -450,8 +827,11 @@ def build(S: Sources, tier="quick") -> Unit:
         KaniHarness("verif_c05_util::slice_middle_small", "bounded", bound="slices of length <= 6 (Verus proves the unbounded contract)", covers="util::slice_middle"),
         KaniHarness("verif_c05_util::slice_ptr_index_roundtrip", "complete", covers="util::slice_ptr_index(slice, &slice[i]) == i"),
         KaniHarness("verif_c05_fd::clamp_to", "complete", covers="FineDuration::clamp_to / clamp_to_min"),
+        KaniHarness("verif_c05_fd::div_u32", "bounded", bound="u32 -> u128 conversion for every u32; the division for picos < 2^16 and counts < 2^8", covers="<FineDuration as Div<u32>>::div and u32 -> u128 `into` (pairs the two axioms of the Verus unit)"),
+        KaniHarness("verif_c05::sorted_samples_n3", "bounded", bound="exactly 3 samples, symbolic u128 durations",
+                    covers="SampleCollection::sorted_samples (the contract ASSUMED by the Verus unit: ascending, one reference per sample)"),
     ]
-    for n, s, tier in [(0, 0, "quick"), (0, 5, "quick"), (1, 1, "quick"), (1, 3, "quick"), (2, 3, "thorough"), (3, 1, "thorough"), (3, 3, "experimental"), (4, 3, "experimental")]:
+    for n, s, tier in [(0, 0, "quick"), (0, 5, "quick"), (1, 1, "quick"), (1, 3, "quick"), (2, 1, "quick"), (2, 3, "thorough"), (3, 1, "thorough"), (3, 3, "experimental"), (4, 3, "experimental")]:
         hs.append(KaniHarness(f"verif_c05::time_n{n}_s{s}", "bounded", bound=f"exactly {n} samples, sample_size {s}, symbolic u128 durations",
                               covers="BenchContext::compute_stats (time statistics, NaN freedom, no panic)", tier=tier))
     for n, tier in [(1, "quick"), (2, "quick"), (3, "thorough")]:
